@@ -2,6 +2,7 @@ package connsim
 
 import (
 	"fmt"
+	"runtime"
 	"sort"
 	"strings"
 	"sync"
@@ -382,7 +383,7 @@ func (sim *Sim) runFree(enc codec.Encoder) {
 	if cfg.PeerRead == 1 {
 		slow = 300
 	}
-	if cfg.PeerRead != 2 {
+	if cfg.PeerRead != 2 && cfg.PeerRead != 4 {
 		close(sim.peerStart)
 	}
 	go sim.peerReader(slow)
@@ -414,6 +415,31 @@ func (sim *Sim) runFree(enc codec.Encoder) {
 	go func() {
 		defer bg.Done()
 		r := NewRng(cfg.Seed*31 + 77)
+		if cfg.Chunked == 1 {
+			// one byte stream, cut at random places: frames share segments and span segments
+			var stream []byte
+			for _, it := range cfg.Input {
+				stream = append(stream, encodeFrame(enc, cfg.Cipher, PktSpec{it.ID, it.Size})...)
+			}
+			for len(stream) > 0 {
+				n := 1 + r.Intn(1500)
+				if n > len(stream) {
+					n = len(stream)
+				}
+				if _, err := sim.peer.Write(stream[:n]); err != nil {
+					break
+				}
+				stream = stream[n:]
+				if r.Intn(3) == 0 {
+					time.Sleep(time.Duration(r.Intn(400)) * time.Microsecond)
+				}
+			}
+			sim.mu.Lock()
+			sim.wakeSince = time.Now()
+			sim.mu.Unlock()
+			atomic.AddInt32(&sim.inputWritten, int32(len(cfg.Input)))
+			return
+		}
 		for i := range cfg.Input {
 			select {
 			case <-stop:
@@ -481,11 +507,29 @@ func (sim *Sim) runFree(enc codec.Encoder) {
 	} else {
 		time.Sleep(time.Duration(sim.rng.Intn(400)) * time.Microsecond)
 	}
-	if cfg.WaitInput == 1 {
+	if cfg.WaitInput >= 1 {
 		// the peer finishes talking first (including a pause longer than the read time-out)
 		limit := time.Duration(cfg.ReadTimeout+6) * time.Second
 		for t0 := time.Now(); int(atomic.LoadInt32(&sim.inputWritten)) < len(cfg.Input) && time.Since(t0) < limit; {
 			time.Sleep(200 * time.Microsecond)
+		}
+		if cfg.WaitInput == 2 {
+			// ... and until every frame has been handed to the inbound queue (bounded)
+			nframes := 0
+			for _, it := range cfg.Input {
+				if it.Kind == 0 || it.Kind == 7 || it.Kind == 8 {
+					nframes++
+				}
+			}
+			for t0 := time.Now(); time.Since(t0) < limit; {
+				sim.mu.Lock()
+				n := len(sim.delivered)
+				sim.mu.Unlock()
+				if n >= nframes || sim.closeBegan.Load() {
+					break
+				}
+				time.Sleep(200 * time.Microsecond)
+			}
 		}
 		time.Sleep(2 * time.Millisecond)
 	}
@@ -496,6 +540,18 @@ func (sim *Sim) runFree(enc codec.Encoder) {
 	}
 	closersDone := make(chan struct{})
 	go func() { cw.Wait(); close(closersDone) }()
+	if cfg.PeerRead == 4 {
+		// the peer reads only after Close has returned (and after the GC cycles, if asked for); if
+		// the data does not fit into the kernel buffers Close cannot return first: then let it read
+		select {
+		case <-closersDone:
+			if cfg.GCAfter == 1 {
+				sim.captureAndDrop()
+			}
+		case <-time.After(1500 * time.Millisecond):
+		}
+		close(sim.peerStart)
+	}
 	select {
 	case <-closersDone:
 	case <-time.After(dl(6 * time.Second)):
@@ -657,5 +713,29 @@ func (sim *Sim) runImmediate() {
 		} else {
 			sim.inconclusive("pumps still alive 5s after the immediate close returned: %s", sim.blockedSummary())
 		}
+	}
+}
+
+// captureAndDrop: record the final observables of the endpoint, then drop every reference the
+// harness holds to it (and to its socket) and force two garbage collections: whatever the
+// runtime does to an unreferenced endpoint happens now, before the peer has read anything.
+func (sim *Sim) captureAndDrop() {
+	for sim.takeInbound() {
+	}
+	for sim.takeErr() {
+	}
+	end := time.Now().Add(2 * time.Second)
+	for sim.pumpsAlive() && time.Now().Before(end) {
+		time.Sleep(200 * time.Microsecond)
+	}
+	st := sim.conn.Stats()
+	sim.finalCounters = []int64{st.Get(qnet.StatPacketsSent), st.Get(qnet.StatBytesSent), st.Get(qnet.StatPacketsRecv), st.Get(qnet.StatBytesRecv)}
+	sim.finalState = int64(sim.conn.VerifState())
+	sim.finalDone = sim.conn.VerifDoneClosed()
+	sim.dropped = true
+	sim.conn = nil
+	for k := 0; k < 2; k++ {
+		runtime.GC()
+		time.Sleep(20 * time.Millisecond)
 	}
 }
